@@ -11,6 +11,8 @@ def spec(tier):
            XH("D.valid", F, "valid", 120, what="the valid two-module base program (lower and upper case, 0..3 blank lines above): no error-severity diagnostic is published")]
     obs += parts("D.seeded", F, "seeded", 11, 250 if q else 1500, path_timeout=200,
                  what="33 seeded variants covering the 15 documented defect classes at several positions (module / procedure / block / internal procedure / program / top of file / between units), x 0..3 blank lines above: the class's message with its severity on the offending line is PUBLISHED by the real server on didOpen, and no error of another class")
+    obs += parts("D.seeded_layout", F, "seeded_layout", 8, 250 if tier == "quick" else 1500,
+                 what="the 36 defect variants under re-layout: letter case (as written / upper / title) x line ending (LF / CRLF / CR) x trailing blanks+comments x 0..3 blank lines above (quick: 3 of the 9 case/ending combinations): same class, same severity, same line, no unrelated error")
     return dict(
         obligations=obs,
         functions=["Scope.check_definitions", "Scope.check_use", "Variable.check_definition", "Subroutine.get_diagnostics", "Type.get_diagnostics",
